@@ -1,7 +1,7 @@
 /-
   C36 driver (accept mode): `op<TAB>trace` → `ok` iff the trace of the REAL mux equals the model's.
 
-  op    : mux steps=<tok,…>
+  op    : mux [cls=flood] steps=<tok,…>      (cls=flood: the script blocks the mux loop — known finding)
           p<hex>      the peer sends this raw packet
           o           application: OpenChannel("x")            (call id = step index)
           g1 | g0     application: SendRequest("req", wantReply)
@@ -14,6 +14,8 @@
           things delivered to the application  nc:<type> gr:<name>:<want> cr:<id>:<name>:<want>
           then (sorted) calls that returned  O<k>=ok|fail:<reason>|err  G<k>=ok|fail|err|nowait  R<k>=…|und  K<k>=ok|err|und
           END (the mux loop ended) followed by shut=ok (every channel, request stream and queue found closed)
+          BLOCKED (the mux loop consumed the packet and never came back for the next one); after that the peer's
+          hang-up yields STUCK,shut=bad:loop-never-exits (mux.Wait does not return)
 -/
 import XC.Model.C36
 namespace XC.C36
@@ -37,6 +39,7 @@ def stepTok (m : Mux) (i : Nat) (tok : String) : Except String (Mux × String) :
       match onePacket m p with
       | none => .error "bad-op:unmodelled"
       | some (.panic, _, _) => .ok (m, "panic")
+      | some (.blocks, _, ev) => .ok (m, seg (ev ++ ["BLOCKED"]))
       | some (.err, m, ev) => .ok (endMux m ev)
       | some (.ok, m, ev) =>
         let (m, comp) := completions m
@@ -57,14 +60,7 @@ def stepTok (m : Mux) (i : Nat) (tok : String) : Except String (Mux × String) :
       match h.toNat? with
       | none => .error "bad-op"
       | some h =>
-        -- a second wantReply request on a channel whose first one is still waiting would block on
-        -- sentRequestMu: the harness does not issue it
-        let busy := match m.held[h]? with
-          | some uid => match findByUid m uid with
-            | some (_, c) => c.requester.isSome && w == "1"
-            | none => false
-          | none => false
-        if busy then .ok (m, "-") else
+        if chanReqBlocks m h (w == "1") then .ok (m, "-") else
         match localChanReq m i h (w == "1") with
         | none => .ok (m, "-")
         | some (m, ev) =>
@@ -80,12 +76,17 @@ def stepTok (m : Mux) (i : Nat) (tok : String) : Except String (Mux × String) :
       | some (m, ev) => .ok (m, seg ev)
   | _ => .error "bad-op"
 
-def expect : Mux → Nat → List String → List String → Except String (List String)
-  | _, _, [], acc => .ok acc.reverse
-  | m, i, t :: ts, acc =>
+/-- `stuck`: the mux loop is parked for ever in `ch.msg <- msg`; the harness then only lets the peer hang up -/
+def expect : Mux → Bool → Nat → List String → List String → Except String (List String × Bool)
+  | _, stuck, _, [], acc => .ok (acc.reverse, stuck)
+  | m, true, i, t :: ts, acc =>
+    expect m true (i+1) ts ((if t == "x" then "STUCK,shut=bad:loop-never-exits" else "-") :: acc)
+  | m, false, i, t :: ts, acc =>
     match stepTok m i t with
     | .error e => .error e
-    | .ok (m', s) => if s == "panic" then .ok (("panic" :: acc).reverse) else expect m' (i+1) ts (s :: acc)
+    | .ok (m', s) =>
+      if s == "panic" then .ok (("panic" :: acc).reverse, false)
+      else expect m' ((s.splitOn "BLOCKED").length > 1) (i+1) ts (s :: acc)
 
 def handle (line : String) : String :=
   match line.splitOn "\t" with
@@ -95,14 +96,19 @@ def handle (line : String) : String :=
     match o.get? "steps" with
     | none => "bad-op"
     | some st =>
-      match expect Mux.init 0 (st.splitOn ",") [] with
+      match expect Mux.init false 0 (st.splitOn ",") [] with
       | .error e => e
-      | .ok want =>
+      | .ok (want, stuck) =>
         let w := "|".intercalate want
-        if (tr.splitOn "panic").length > 1 then "violation:mux_total (panic)"
-        else if (tr.splitOn "hang").length > 1 then "violation:hang"
-        else if (tr.splitOn "shut=bad").length > 1 then "violation:shutdown_closes_all"
-        else if tr == w then "ok" else s!"reject:want={w}"
+        let flood := o.get? "cls" == some "flood"
+        if stuck != flood then "bad-op:class-flood"
+        else if (tr.splitOn "panic").length > 1 then "violation:mux_total (panic)"
+        else if tr == "hang" || (tr.splitOn "|hang").length > 1 then "violation:hang"
+        else if tr != w then s!"reject:want={w}"
+        else if (tr.splitOn "shut=bad").length > 1 then
+          (if stuck then "violation:shutdown_closes_all (the trace is a run of the model of the code as written: the mux loop is parked in `default: ch.msg <- msg` after 16 unsolicited messages nobody receives; when the connection ends the loop never exits, Wait never returns, channels and request streams stay open)"
+           else "violation:shutdown_closes_all")
+        else "ok"
   | _ => "bad-op"
 
 end XC.C36
